@@ -85,6 +85,7 @@ def strLine (a b : List Nat) : String :=
   let o := obsStr a b
   obsBits o ++ " " ++ optBit (isLessA l r l.size r.size false 0) ++ optBit (isLessA l r l.size r.size true 0) ++
     optBit (isGreaterA l r l.size r.size false 0) ++ optBit (isGreaterA l r l.size r.size true 0) ++
+    optBit (isEqualA l r (min l.size r.size) 0) ++
     (if eqA == some o.eq then "" else " cursor-eq-differs")
 
 def parseObs (s : String) : Option Obs :=
@@ -118,6 +119,21 @@ def sortValues (asc : Bool) (toks : List String) : String :=
     match sortTaggedT Val.lt Val.gt Val.le Val.ge asc elems with
     | some out => out
     | none => "model-fault"
+
+/-- `Memory::Sort<asc>(arr, start, end)` on a segment: all tokens, then the two tables of the segment. -/
+def sortSegment (asc : Bool) (start stop : Nat) (toks : List String) : String :=
+  match toks.mapM (fun t => (parseValue t).map (fun v => (v, t))) with
+  | none => "bad-op"
+  | some elems =>
+    if start > stop || stop > elems.length then "bad-op" else
+    let before : (JVal × String) → (JVal × String) → Bool :=
+      fun x y => if asc then Val.lt x.1 y.1 else Val.gt x.1 y.1
+    match sortSeg before (stop - start) elems.toArray start stop with
+    | none => "model-fault"
+    | some out =>
+      let seg := (out.toList.drop start).take (stop - start)
+      showList (out.toList.map (·.2)) ++ " " ++ showBits (pairsTable before seg) ++ " " ++
+        showBits (chainTable (fun x y => if asc then Val.le x.1 y.1 else Val.ge x.1 y.1) seg)
 
 def sortStrings (asc signed : Bool) (toks : List String) : String :=
   match toks.mapM (fun t => (parseStr t).map (fun v => (if signed then v.map signedUnit else v, t))) with
@@ -284,6 +300,18 @@ def handle (op : String) (args : List String) : String :=
   | "ordsorta", [a, l] => match asc? a with | some a => sortValues a (parseList l) | none => "bad-op"
   | "ordsorts", [a, w, l] =>
     match asc? a with | some a => sortStrings a (w == "1s") (parseList l) | none => "bad-op"
+  | "ordsortw", [a, w, l] =>
+    match asc? a with | some a => sortStrings a (w == "1s") (parseList l) | none => "bad-op"
+  | "ordsortn", [a, _k, l] => match asc? a with | some a => sortValues a (parseList l) | none => "bad-op"
+  | "ordsortl", [a, l] => match asc? a with | some a => sortObject a (parseList l) | none => "bad-op"
+  | "ordsortseg", [a, s, e, l] =>
+    match asc? a, s.toNat?, e.toNat? with
+    | some a, some s, some e => sortSegment a s e (parseList l)
+    | _, _, _ => "bad-op"
+  | "ordsortseg64", [a, s, e, l] =>
+    match asc? a, s.toNat?, e.toNat? with
+    | some a, some s, some e => sortSegment a s e (parseList l)
+    | _, _, _ => "bad-op"
   | "ordsorto", [a, l] => match asc? a with | some a => sortObject a (parseList l) | none => "bad-op"
   | "ordsorth", [a, l] => match asc? a with | some a => sortObject a (parseList l) | none => "bad-op"
   | "ordloop", [a, l] => match asc? a with | some a => loopLine a (parseList l) | none => "bad-op"
